@@ -113,10 +113,13 @@ async def settle(t=1.0):
     await asyncio.sleep(t)
 
 
-def run_snapshot(ctx, snapshot, lines, impl_ans, rng):
+LONG_SESSION = 140      # pack commands in one session: the command sequence numbers (64 values) wrap more than twice
+
+
+def run_snapshot(ctx, snapshot, lines, impl_ans, rng, long_session=True):
     """full stack on one shipped snapshot; issues commands, records emissions, runs the monitors"""
     name = os.path.basename(snapshot)
-    out = {"connected": False}
+    out = {"connected": False, "long_session": long_session}
 
     async def body(loop):
         man, sim, net = connect_stack(loop, snapshot)
@@ -341,6 +344,37 @@ def run_snapshot(ctx, snapshot, lines, impl_ans, rng):
                                   f"one SETWC; spa and client both read mode {want} afterwards",
                                   {"error": err, "setwc_sent": len(sent), "spa_mode": sim.wc_mode, "client_mode": wc.mode})
                     break
+            # ---- a LONG session on the one connection: more than two whole cycles of the command sequence numbers (64 values),
+            #      every command still one well-formed in-range SPACK that the spa applies and echoes
+            packs = lambda: [c for c in sim.commands if c["kind"] in ("key", "set")]
+            pumps = [p for p in fac.pumps if len([m for m in p.modes if m]) >= 2]
+            if out.get("long_session", True) and (pumps or switches):
+                k = 0
+                while len(packs()) < LONG_SESSION and k < LONG_SESSION + 20:
+                    n0 = len(packs())
+                    if pumps:
+                        p = pumps[k % len(pumps)]
+                        ms = [m for m in p.modes if m]
+                        ud = p._user_demand["demand"]
+                        mode = ms[0] if spa.accessors[ud].value != ms[0] else ms[1]
+                        new, obs, err = await issue(f"long:{k}:{p.key}:mode:{mode}", lambda m=mode, pp=p: pp.async_set_mode(m), None, None, acc=spa.accessors[ud])
+                        ok = len(new) == 1 and spa.accessors[ud].value == mode
+                    else:
+                        dev = switches[k % len(switches)]
+                        want = not dev.is_on
+                        new, obs, err = await issue(f"long:{k}:{dev.key}:{'on' if want else 'off'}",
+                                                    dev.async_turn_on if want else dev.async_turn_off, None, None, acc=dev._accessor)
+                        ok = len(new) == 1 and dev.is_on == want
+                    ctx.count("evaluations")
+                    ctx.hist("commands", "long-session")
+                    if not ok:
+                        ctx.violation("long-session:command-not-applied", {"snapshot": name, "nth_pack_command": n0 + 1},
+                                      "one command, applied by the spa and read back", {"sent": obs, "error": err})
+                        break
+                    k += 1
+                out["pack_commands"] = len(packs())
+                seqs = [c["seq"] for c in packs()]
+                out["seq_values"] = len(set(seqs))
             # ---- the mirror equals the spa block after the whole command sequence
             await settle(2.0)
             if spa.struct.status_block != sim.structure.status_block:
@@ -415,9 +449,12 @@ def run(ctx):
     lines, impl_ans = [], []
     nontrivial = set()
     built = 0
-    for s in chosen:
+    longest = 0
+    for n_, s in enumerate(chosen):
         try:
-            out = run_snapshot(ctx, s, lines, impl_ans, rng)
+            # quick: the long session on the first two snapshots; thorough: on every one
+            out = run_snapshot(ctx, s, lines, impl_ans, rng, long_session=(not ctx.quick) or n_ < 2)
+            longest = max(longest, out.get("pack_commands", 0))
         except Exception as e:  # noqa
             ctx.violation(f"stack-raised:{os.path.basename(s)}", {"snapshot": os.path.basename(s)}, "the stack runs", f"{type(e).__name__}: {e}")
             continue
@@ -444,6 +481,7 @@ def run(ctx):
     for i, l in enumerate(lines):
         if not l.startswith("blk") and impl_ans[i] not in ("none",) and not impl_ans[i].startswith("none"):
             ctx.sample({"op": l[:100], "impl": impl_ans[i]})
+    ctx.cov["longest_session_pack_commands"] = longest
     ctx.cov["snapshots_connected"] = built
     ctx.cov["snapshots_tried"] = len(chosen)
     ctx.cov["distinct_nontrivial"] = len(nontrivial)
